@@ -373,6 +373,9 @@ func genUnsqueeze(r *gen.R, validOnly bool) (mon.OpReq, Expect, bool) {
 		return mon.OpReq{}, Expect{}, false
 	}
 	k := r.Range(1, 3)
+	if r.Chance(0.03) {
+		k = r.Range(4, 8)
+	}
 	R := x.Rank() + k
 	p := r.Perm(R)[:k]
 	axes := make([]int64, k)
